@@ -37,7 +37,7 @@ def chic_frag(mk, P, rev, clip, sample, umi, d, radius):
 def plain_frag(mk, start, length, rev, sample, umi, d, radius):
     r = mk(query_name='q', reference_name=CONTIG, reference_start=start, cigartuples=[(0, length)], seq='A' * 1, qual='I' * 1,
            is_reverse=rev, is_read1=True, tags={'SM': sample, 'RX': umi})
-    return Fragment([r], umi_hamming_distance=d, assignment_radius=radius)
+    return Fragment([r, None], umi_hamming_distance=d, assignment_radius=radius)
 
 
 def pair_clause(a, b, expected):
